@@ -140,6 +140,8 @@ def run(ctx):
         for c in CRATES:
             pre = catalogue.PRELUDE.format(C=c, V=VTYPE[c])
             for p in catalogue.PROBES:
+                if p["backends"] != "all" and c not in p["backends"]:
+                    continue
                 for kind in ("bad", "good"):
                     src = pre + p[kind].format(C=c, V=VTYPE[c], O=OTHER[c], OV=VTYPE[OTHER[c]]) + "\n"
                     path = os.path.join(tmp, f"{c}_{p['id']}_{kind}.rs")
@@ -164,6 +166,8 @@ def run(ctx):
     stale = {}
     for c in CRATES:
         for p in catalogue.PROBES:
+            if p["backends"] != "all" and c not in p["backends"]:
+                continue
             (_, (rc_b, codes_b, msg_b)) = by[(c, p["id"], "bad")]
             (_, (rc_g, codes_g, msg_g)) = by[(c, p["id"], "good")]
             probs = []
